@@ -7,6 +7,12 @@ VERIF = os.path.dirname(os.path.dirname(os.path.abspath(__file__)))
 ALL = [f"C{i:02d}" for i in range(1, 21)]
 
 CLAIMS = {
+    "C11": dict(
+        text="PARTIAL proof + monitored execution. Proved in Coq (C11_only_importerror): for EVERY byte string the model of load_module either returns or raises ImportError - size check, magic lookups (every table magic has a version tuple: obligation over the regenerated table), Dropbox path, header fields and every exception of the unmarshaller are inside the conversion. The real process is explored: every prefix, single-byte mutations, deletions/insertions of the smallest corpus file of each version, adversarial length/reference/nesting fields behind each header form, random bytes - outcome class, wall time < 10 s, and audit events (exec/compile/import/open-for-write/os mutators) recorded by sys.addaudithook; the model's outcome is compared on the same inputs.",
+        note="Trusted: Coq kernel; hand model coq/Model/LoadModule.v (which statements are inside the try) + correspondence; the audit-hook allow-list (traceback/linecache imports and traceback's own ast.parse of its frames). Not a theorem: termination of the reader for all inputs, memory/time of the real interpreter. Known finding D32 (host-magic fast path spends tens of seconds in CPython's marshal on a 2^31-1 tuple length).",
+        technique="Coq case-analysis proof over the exception plumbing + fault-injection exploration with audit hooks",
+        design="7/C11",
+    ),
     "C13": dict(
         text="PARTIAL proof + execution. Proved in Coq: for the magic of every final release the writer reproduces, every 32-bit timestamp/size and every payload, the header write_bytecode_file emits is, per that version's format (C06 spec), a timestamp header with exactly those fields (size from 3.3, zero PEP 552 flags from 3.7), and load_module's header parser (C06 model) reads them back and finds the payload where it was put. The payload round trip is decided by execution: sources compiled by the real 2.7, 3.6-3.10, loaded by xdis, written back, compared by the target's own marshal.loads (code-object == and constant kinds) and re-read by xdis; for 3.11+ targets the writer must raise.",
         note="Trusted: Coq kernel; hand model coq/Model/WriteHeader.v + correspondence on every table magic; the real target interpreters as judges of code-object equality; 'behaves identically' is taken from that equality. The marshal payload writer (marsh.py dump_code2/3) is not modelled in Coq.",
